@@ -549,6 +549,60 @@ fn printer_leg(sub: u64, case: &Case, rng: &mut Rng, acc: &mut Acc) {
             }
         }
     }
+    // One printer, a new sink per file (what rg does): the search of the first file fails at a
+    // seeded read after part of its results were printed (completion is never signalled after an
+    // error) - the next file on the same printer is printed as by a printer that has written
+    // something before: separator, heading, its own results, nothing of the failed search's state.
+    for which in ["standard", "json", "summary-count"] {
+        acc.evals += 1;
+        acc.faults.inc("printer-reused-after-a-failed-search");
+        let first: Vec<u8> = {
+            let mut d = b"foo first\nbar\nfoo foo\nx\nfoo\n".to_vec();
+            for i in 0..40 {
+                d.extend_from_slice(format!("line {i} of the first file with foo in it\n").as_bytes());
+            }
+            d
+        };
+        let mut h = History::plain(Style::parse("fixed16"), rng.next());
+        h.fault_at = Some((3 + rng.below(20), ReadFault::Error));
+        let knobs = Knobs { capacity: Some(64), ..Knobs::default() };
+        macro_rules! seq {
+            ($mk:expr, $inner:expr, $len:expr) => {{
+                let fresh_second = {
+                    let mut p = $mk;
+                    let mut searcher = build_searcher(&c.cfg, &Knobs::default());
+                    // the first file searched to the end
+                    let _ = searcher.search_slice(&matcher, &first, p.sink_with_path(&matcher, "first"));
+                    let n0: usize = $len(&mut p);
+                    let _ = searcher.search_slice(&matcher, &c.data, p.sink_with_path(&matcher, "second"));
+                    let w: SimWriter = $inner(p);
+                    w.out[n0..].to_vec()
+                };
+                let mut p = $mk;
+                let r1 = build_searcher(&c.cfg, &knobs).search_reader(&matcher, SimReader::new(&first, &h, b'\n'), p.sink_with_path(&matcher, "first"));
+                let n1: usize = $len(&mut p);
+                let mut searcher = build_searcher(&c.cfg, &Knobs::default());
+                let _ = searcher.search_slice(&matcher, &c.data, p.sink_with_path(&matcher, "second"));
+                let w: SimWriter = $inner(p);
+                (r1.is_err(), n1, w.out[n1..].to_vec(), fresh_second)
+            }};
+        }
+        let (failed, n1, got, expect) = match which {
+            "standard" => seq!(StandardBuilder::new().heading(true).separator_search(Some(b"SEP".to_vec())).build_no_color(SimWriter::new(None)), |p: grep_printer::Standard<termcolor::NoColor<SimWriter>>| p.into_inner().into_inner(), |p: &mut grep_printer::Standard<termcolor::NoColor<SimWriter>>| p.get_mut().get_ref().out.len()),
+            "summary-count" => seq!(SummaryBuilder::new().kind(SummaryKind::Count).build_no_color(SimWriter::new(None)), |p: grep_printer::Summary<termcolor::NoColor<SimWriter>>| p.into_inner().into_inner(), |p: &mut grep_printer::Summary<termcolor::NoColor<SimWriter>>| p.get_mut().get_ref().out.len()),
+            _ => seq!(JSONBuilder::new().build(SimWriter::new(None)), |p: grep_printer::JSON<SimWriter>| p.into_inner(), |p: &mut grep_printer::JSON<SimWriter>| p.get_mut().out.len()),
+        };
+        let (got, expect) = if which == "json" { (mask_json_times(&got), mask_json_times(&expect)) } else { (got, expect) };
+        // (judged when the first search did fail after printing something)
+        if failed && n1 > 0 && got != expect {
+            let class = format!("printer-reused-after-failed-search:{which}");
+            if acc.violations.iter().filter(|v| v.class == class).count() < 10 {
+                let d = expect.iter().zip(got.iter()).take_while(|(a, b)| a == b).count();
+                let from = d.saturating_sub(60);
+                acc.violations.push(mk(&class, format!("{which} printer: first file failed at read {:?} after {n1} bytes were printed; the second file's output differs from that of a printer whose first search ended normally, at byte {d}: printed ...{:?}, expected ...{:?}", h.fault_at, show(&got[from..got.len().min(d + 120)]), show(&expect[from..expect.len().min(d + 120)])), 0, which, &got));
+            }
+        }
+    }
     // a writer that takes 1-7 bytes per call and asks for a retry (Interrupted) one call in four:
     // every printer still delivers exactly the bytes it delivers to a well-behaved writer
     for which in ["standard", "summary-count", "json"] {
